@@ -49,6 +49,10 @@ func DeserializeU64(data types.ByteSequence) (types.U64, error) {
 		for i := 0; i < 8; i++ {
 			x |= types.U64(data[i]) << (8 * i)
 		}
+		// the 9-byte form is minimal only for x >= 2^56
+		if x < (types.U64(1) << 56) {
+			return 0, errors.New("invalid U64 encoding")
+		}
 		return x, nil
 	}
 
